@@ -282,7 +282,7 @@ func runC01(r *core.Run) {
 			skew := []time.Duration{-6 * 365 * 24 * time.Hour, -24 * time.Hour, time.Hour, 6 * 365 * 24 * time.Hour}[r.Intn(4, "skew")]
 			t, timeClass = a.A.Now.Add(skew), "skewed-now"
 		}
-		entry := r.Intn(15, "entry")
+		entry := r.Intn(16, "entry")
 		if entry >= 9 && entry <= 11 && !(wantTDX) { // TDX entries need a TDX world
 			entry = r.Intn(9, "entry-snp")
 		}
@@ -448,6 +448,17 @@ func callEntry(r *core.Run, entry int, d delivery, cpool *x509.CertPool, rootLis
 		}
 		f := verify.SNPValidateFunc(&verify.Options{RootsOfTrust: cpool, Now: t, Endorsement: le})
 		return f(SnpAttestation(meas, nil), d.base.Bytes), "closure/options+table", false
+	case 15:
+		// a long-lived validator: built while the relying party trusted the genuine root and the
+		// certificate was valid, used after the party changed its options value (its roots, its
+		// clock). The options the caller configured at the time of the call decide.
+		o := &verify.Options{RootsOfTrust: Pool(a.Root), Now: a.A.Now.Add(time.Hour)}
+		f := verify.SNPValidateFunc(o)
+		if perr := f(SnpAttestation(meas, nil), d.base.Bytes); perr == nil {
+			r.Probe("late-options-validator-primed")
+		}
+		o.RootsOfTrust, o.Now = cpool, t
+		return f(SnpAttestation(meas, nil), d.bytes), "closure/late-options", false
 	case 14:
 		// sign/ops: verify a message signature "from the CA": the CA double serves the delivered
 		// certificate for the key and the caller's roots as its bundle
